@@ -208,6 +208,7 @@ class Check:
             else:
                 violations.append(f)
 
+        violations = self._reproducible(violations)
         if self.floor_failures and not violations:
             # instance floors guard against a vacuous pass on the tree the instances were counted on.  On a tree whose
             # source differs from that snapshot fewer recognised instances only mean that some construct was rewritten:
@@ -250,6 +251,40 @@ class Check:
 
         self._write_evidence(wall, len(violations), len(known_hits))
         return 1 if violations else 0
+
+    def _reproducible(self, violations):
+        """A violation is only claimed when a second, independent run of the check (fresh process) reports it as well: the
+        analyses are deterministic functions of the source tree, so a finding that does not come back is a fault of the
+        analysis run (it is recorded as undecided, never as a violation).  The second run writes its violation keys to the
+        file named by PDTSA_CONFIRM and does not confirm itself."""
+        out_file = os.environ.get("PDTSA_CONFIRM")
+        if out_file:
+            try:
+                Path(out_file).write_text(json.dumps(sorted(f.key for f in violations)))
+            except OSError:
+                pass
+            return violations
+        if not violations or self.replay_key is not None or os.environ.get("PDTSA_NO_CONFIRM"):
+            return violations
+        import subprocess
+        import sys
+        import tempfile
+
+        with tempfile.TemporaryDirectory(prefix="pdtsa-confirm-") as td:
+            keyfile = Path(td) / "keys.json"
+            env = dict(os.environ, PDTSA_CONFIRM=str(keyfile), PDTSA_NO_EVIDENCE="1", PDTSA_FINDINGS_DIR=str(Path(td) / "findings"),
+                       PYTHONPATH=str(VERIF), PYTHONDONTWRITEBYTECODE="1")  # fmt: skip
+            try:
+                subprocess.run([sys.executable, "-m", "pdtsa", self.prop, "--tier", self.tier, "--repo", str(self.repo.root)],
+                               cwd=str(VERIF), env=env, capture_output=True, text=True, timeout=4 * 3600)  # fmt: skip
+                confirmed = set(json.loads(keyfile.read_text()))
+            except Exception:  # the confirming run did not finish: nothing is withdrawn
+                return violations
+        kept = [f for f in violations if f.key in confirmed]
+        for f in violations:
+            if f.key not in confirmed:
+                self.undecided.append(f"{f.rule}: a finding of the first run was not reproduced by an independent second run and is not claimed ({f.message[:120]})")
+        return kept
 
     def _write_evidence(self, wall, n_viol, n_known):
         cov = {
